@@ -692,4 +692,33 @@ theorem quiescent_all_returned (cap : Nat) (sc : Script) (ls : List Label) (s : 
         rw [hrp] at hcl
         simp [hcls, hw] at hcl
 
+/-- in a quiescent state the actor is idle, has ended, or is inside a hook that waits for its own external event (a gate
+    with no permit) - nothing else stops the actor's task -/
+theorem quiescent_actor_where (s : Sys) (hq : quiescent s) :
+    s.pc = .parked ∨ s.pc = .ended ∨
+    (s.gatePermits = 0 ∧ (s.pc = .starting ∨ (∃ m k, s.pc = .inHandler m k) ∨ ∃ a b c, s.pc = .stopping a b c)) := by
+  have h := hq.1
+  unfold actorLabel at h
+  cases hpc : s.pc with
+  | starting =>
+    rw [hpc] at h; simp only at h
+    split at h
+    · cases h
+    · exact Or.inr (Or.inr ⟨by omega, Or.inl rfl⟩)
+  | selTerm => rw [hpc] at h; cases h
+  | selMail => rw [hpc] at h; cases h
+  | selRun => rw [hpc] at h; cases h
+  | parked => exact Or.inl rfl
+  | inHandler m k =>
+    rw [hpc] at h; simp only at h
+    split at h
+    · cases h
+    · exact Or.inr (Or.inr ⟨by omega, Or.inr (Or.inl ⟨m, k, rfl⟩)⟩)
+  | stopping a b c =>
+    rw [hpc] at h; simp only at h
+    split at h
+    · cases h
+    · exact Or.inr (Or.inr ⟨by omega, Or.inr (Or.inr ⟨a, b, c, rfl⟩)⟩)
+  | ended => exact Or.inr (Or.inl rfl)
+
 end Rsactor.Model
